@@ -59,9 +59,9 @@ def main():
     res["passed_with_patch"] = n_pass
     if demo == script:
         # the agent's script adds its test to the tree as it is, runs it and removes it again; exit 0 = property holds
-        step("demo-with-patch-fails", "sh %s %s 2>&1" % (script, wt), False)
+        step("demo-with-patch-fails", "bash %s %s 2>&1" % (script, wt), False)
         sh("git apply -R %s" % patch, wt)
-        step("demo-without-patch-passes", "sh %s %s 2>&1" % (script, wt), True)
+        step("demo-without-patch-passes", "bash %s %s 2>&1" % (script, wt), True)
     else:
         shutil.copy(demo, os.path.join(wt, tdir, "seed_demo.rs"))
         step("demo-with-patch-fails", "cargo test -p %s --offline --test seed_demo 2>&1" % pkg, False)
